@@ -6,6 +6,8 @@ func (m Memoizer[T, V]) Memoize(key T, fn func() (*cache.Item[V], error)) (*cach
 	item, _ := m.Cache.Get(key)                       // cacheCheck
 	if item != nil { return item, nil }               //   hit ⇒ return
 	data, err, _ := m.group.Do(string(key), func() (any, error) {   // doEnter: join the in-flight call or lead
+		if item, _ := m.Cache.Get(key); item != nil { return item, nil }   // the leader's re-check: leadHit (live value ⇒
+		                                              //   no execution, straight to doFinish) / otherwise:
 		item, err := fn()                             // fnStart … fnEnd (value or error from the environment)
 		if err == nil { m.Cache.SetDefault(key, item.Val()) }       // cacheSet (only on success)
 		return item, err
@@ -13,6 +15,13 @@ func (m Memoizer[T, V]) Memoize(key T, fn func() (*cache.Item[V], error)) (*cach
 	return data.(*cache.Item[V]), err
 }
 ```
+
+The leader's re-check (`Cache.Get` inside the `Do` closure) and the start of the supplied function are ONE
+step of the LTS: a caller at `pc = leader` reads the cache cell of its key at the current instant; on a
+live value `v` only `leadHit` is enabled (no execution: the caller goes straight to `setDone (.ok v)`, from
+where `doFinish` publishes `.ok v`), on a miss only `fnStart` is enabled (the function starts).  This
+atomicity loses nothing: between the re-check and the call of `fn` no time passes, and the only caller
+that can write the cell of the key meanwhile is the leader of the key's flight — the caller itself.
 
 Two layers:
 * `memoizeSeq` — one call with nobody else around (what the sequential part of the correspondence
@@ -62,7 +71,12 @@ structure SeqOut where
   now  : Int       -- the instant at which the call returns
 deriving DecidableEq, Repr
 
-/-- `Memoize(key, fn)` at instant `now`, where `fn` takes `lat` and returns `r` -/
+/-- `Memoize(key, fn)` at instant `now`, where `fn` takes `lat` and returns `r`.
+
+The leader's re-check of the cache inside the `Do` closure does not show here: with nobody else around it
+happens at the same instant and on the same cell as the first lookup, so it misses exactly when the first
+lookup missed (`Theorems/C17.lean: lts_seq_miss` runs `seqScript`, whose `fnStart` step IS that re-check
+missing). -/
 def memoizeSeq (expTime now lat : Int) (cell : Cell) (r : Res) : SeqOut :=
   match cellGet now cell with
   | some v => { cell := cell, res := .ok v, ran := false, now := now }      -- item != nil ⇒ return item
@@ -91,6 +105,8 @@ deriving DecidableEq, Repr, Inhabited
 inductive Src where
   | hit (v : Int)           -- the value read from the cache by `cacheCheck`
   | exec (l : Nat)          -- the execution led by caller `l` (possibly the caller itself)
+  | lhit (l : Nat) (v : Int) -- the value read from the cache by the leader `l` of the caller's flight at its
+                            -- re-check inside `Do` (`leadHit`; `l` is possibly the caller itself): no execution
 deriving DecidableEq, Repr
 
 structure Cfg where
@@ -103,7 +119,8 @@ structure State where
   cache  : Nat → Cell                 -- per key
   flight : Nat → Option Nat           -- singleflight's map: key ↦ leader of the call in flight
   result : Nat → Option Res           -- `c.val, c.err` published by the leader (indexed by leader)
-  -- ghost components: written, never read by a guard
+  -- ghost components: written, never read by a guard (`wake` copies the leader's `src` into the joiner's `src`:
+  -- ghost to ghost, see `wakeSrc`)
   inflight : Nat → Nat                -- per key: executions of the supplied function in progress
   started  : Nat → Bool               -- the caller's own function was invoked
   execRes  : Nat → Option Res         -- what the caller's own function returned
@@ -130,7 +147,8 @@ inductive Label where
   | invoke (c : Nat)
   | cacheCheck (c : Nat)
   | doEnter (c : Nat)
-  | fnStart (c : Nat)
+  | leadHit (c : Nat)               -- the leader's re-check finds a live value: no execution
+  | fnStart (c : Nat)               -- the leader's re-check finds nothing live: the function starts
   | fnEnd (c : Nat) (r : Res)       -- the result is chosen by the environment
   | cacheSet (c : Nat)
   | doFinish (c : Nat)
@@ -140,8 +158,15 @@ deriving DecidableEq, Repr
 
 /-- the caller a label belongs to (`tick` belongs to nobody) -/
 def Label.caller : Label → Option Nat
-  | .invoke c | .cacheCheck c | .doEnter c | .fnStart c | .fnEnd c _ | .cacheSet c | .doFinish c | .wake c => some c
+  | .invoke c | .cacheCheck c | .doEnter c | .leadHit c | .fnStart c | .fnEnd c _ | .cacheSet c | .doFinish c | .wake c => some c
   | .tick _ => none
+
+/-- the ghost source of a joiner that is woken up by leader `l`: if `l`'s re-check hit the cache, the value
+`l` read there; otherwise what was recorded when the caller joined (the execution led by `l`) -/
+def wakeSrc (s : State) (c l : Nat) : Option Src :=
+  match s.src l with
+  | some (.lhit _ v) => some (.lhit l v)
+  | _ => s.src c
 
 /-- one step; `none` = the label is not enabled -/
 def step (cfg : Cfg) (s : State) : Label → Option State
@@ -164,10 +189,23 @@ def step (cfg : Cfg) (s : State) : Label → Option State
       | none => some { s with pc := upd s.pc c .leader, flight := upd s.flight (cfg.key c) (some c),
                               src := upd s.src c (some (.exec c)) }
     | _ => none
+  -- the leader's step: it first re-reads the cache cell of its key at the current instant …
+  | .leadHit c =>
+    match s.pc c with
+    | .leader =>
+      match cellGet s.now (s.cache (cfg.key c)) with
+      -- … a live value: the function is NOT started; `doFinish` will publish `.ok v`
+      | some v => some { s with pc := upd s.pc c (.setDone (.ok v)), src := upd s.src c (some (.lhit c v)) }
+      | none => none
+    | _ => none
   | .fnStart c =>
     match s.pc c with
-    | .leader => some { s with pc := upd s.pc c .running, started := upd s.started c true,
-                               inflight := upd s.inflight (cfg.key c) (s.inflight (cfg.key c) + 1) }
+    | .leader =>
+      match cellGet s.now (s.cache (cfg.key c)) with
+      -- … nothing live: the function starts
+      | none => some { s with pc := upd s.pc c .running, started := upd s.started c true,
+                              inflight := upd s.inflight (cfg.key c) (s.inflight (cfg.key c) + 1) }
+      | some _ => none
     | _ => none
   | .fnEnd c r =>
     match s.pc c with
@@ -189,7 +227,7 @@ def step (cfg : Cfg) (s : State) : Label → Option State
     match s.pc c with
     | .waiting l =>
       match s.result l with
-      | some r => some { s with pc := upd s.pc c (.done r) }
+      | some r => some { s with pc := upd s.pc c (.done r), src := upd s.src c (wakeSrc s c l) }
       | none => none
     | _ => none
   | .tick d => some { s with now := s.now + d }
@@ -206,7 +244,8 @@ inductive Reachable (cfg : Cfg) (s0 : State) : State → Prop where
   | refl : Reachable cfg s0 s0
   | step {s s' : State} (l : Label) : Reachable cfg s0 s → step cfg s l = some s' → Reachable cfg s0 s'
 
-/-- the script of one call of caller `c` with nobody else around: the function takes `lat` and returns `r` -/
+/-- the script of one call of caller `c` with nobody else around: the function takes `lat` and returns `r`
+(`fnStart` is enabled because the leader's re-check, at the instant and on the cell of `cacheCheck`, misses too) -/
 def seqScript (c : Nat) (lat : Nat) (r : Res) : List Label :=
   [.invoke c, .cacheCheck c, .doEnter c, .fnStart c, .tick lat, .fnEnd c r, .cacheSet c, .doFinish c]
 
@@ -244,6 +283,7 @@ def logStep (cfg : Cfg) (s : State) (g : EvLog) : Label → EvLog
     | some _ => { g with n := g.n + 1, retAt := upd g.retAt c (some g.n), retT := upd g.retT c (some s.now) }
     | none => { g with n := g.n + 1 }
   | .doEnter _ => { g with n := g.n + 1 }
+  | .leadHit _ => { g with n := g.n + 1 }        -- no execution: nothing but the step itself is recorded
   | .fnStart c => { g with n := g.n + 1, startAt := upd g.startAt c (some g.n), startT := upd g.startT c (some s.now) }
   | .fnEnd c _ => { g with n := g.n + 1, endAt := upd g.endAt c (some g.n), endT := upd g.endT c (some s.now) }
   | .cacheSet _ => { g with n := g.n + 1 }
@@ -291,7 +331,9 @@ A second observation log, again never read by `step`:
   which the harness lists executions);
 * `sets` — one entry `(leader, value, instant)` per successful `cacheSet` step, in the order of these
   steps: what was offered to the cache, when;
-* `readLen c` — how many offers had been made when caller `c` did its `cacheCheck`;
+* `readLen c` — how many offers had been made when caller `c` did its `cacheCheck`; for a caller that is
+  served the value its flight's leader read at its re-check (`Src.lhit`): how many offers had been made
+  when that value was read (the leader: at `leadHit`) resp. handed over (a joiner: at `wake`);
 * `maxIn k` — the maximum of key `k`'s in-flight counter so far. -/
 
 structure HLog where
@@ -305,6 +347,14 @@ def HLog.empty : HLog :=
 
 def histStep (cfg : Cfg) (s : State) (h : HLog) : Label → HLog
   | .cacheCheck c => { h with readLen := upd h.readLen c (some h.sets.length) }
+  | .leadHit c => { h with readLen := upd h.readLen c (some h.sets.length) }
+  | .wake c =>
+    match s.pc c with
+    | .waiting l =>
+      match s.src l with
+      | some (.lhit _ _) => { h with readLen := upd h.readLen c (some h.sets.length) }
+      | _ => h
+    | _ => h
   | .fnStart c =>
     { h with order := h.order ++ [c],
              maxIn := upd h.maxIn (cfg.key c) (max (h.maxIn (cfg.key c)) (s.inflight (cfg.key c) + 1)) }
